@@ -1516,6 +1516,13 @@ class FortranFile:
                     name, dims = self.parse_imp_dim(name)
                     name, char_len = self.parse_imp_char(name)
                     if dims:
+                        # The array-spec of the entity overrides the DIMENSION
+                        # attribute of the statement
+                        var_keywords = [
+                            key
+                            for key in var_keywords
+                            if not key.upper().startswith("DIMENSION")
+                        ]
                         var_keywords.append(dims)
                     if char_len:
                         desc += char_len
